@@ -241,10 +241,11 @@ fn run_ops(sh: &Arc<Shared>, h: &Handle, thread: u64, ops: &[Value]) {
                 let target = ju(op, "target", 2).max(1);
                 let max = ju(op, "max", 2_000);
                 let mut appended = 0u64;
-                let base = sh.ctl.nexts_done.load(Ordering::SeqCst);
+                let base = sh.ctl.entry_nexts_done.load(Ordering::SeqCst);
                 let others = ju(op, "others_in_flight", 0);
                 while !sh.stop.load(Ordering::SeqCst) && appended < max {
-                    let done = sh.ctl.nexts_done.load(Ordering::SeqCst) - base;
+                    // entries taken out of the queue so far (the in-band report is not one)
+                    let done = sh.ctl.entry_nexts_done.load(Ordering::SeqCst) - base;
                     let outstanding = (appended + others).saturating_sub(done.min(appended + others));
                     if outstanding < target {
                         do_append(sh, h, thread, &mut seq);
